@@ -61,6 +61,7 @@ ACTIONS = [
     "Pos", "NsUpdate", "NsUpdateRejected", "ToRenderArgs", "ToRenderArgsRejected",
 ]
 MAX_VIOLATIONS = 40
+NQUICK = 6  # number of class trees in TreesQuick (one TLC partition each)
 OUT = tlc.OUT / "c16"
 
 
@@ -92,20 +93,29 @@ CHECK_DEADLOCK FALSE
 """
 
 
-def run_mc(rep: Report, sel: str, maxops: int, nparts: int, dump: bool, coverage: bool,
+def run_mc(rep: Report, sel: str, maxops: int, nparts: int, dump: bool, coverage,
            timeout: float, label: str):
-    """Run MC_RenderArgs on `nparts` partitions of the tree set side by side."""
+    """Run MC_RenderArgs on `nparts` partitions of the tree set side by side (an edge dump
+    needs one worker per JVM).  coverage: True = every partition runs with -coverage;
+    "sample" = the partitions run without it and one extra JVM runs -coverage on TreesCover
+    (same bounds); per-action edge counts of the whole run are measured either way."""
     d = OUT / f"cfg-{uuid.uuid4().hex[:8]}"
     d.mkdir(parents=True, exist_ok=True)
+    jvm = ["-Xmx3g", "-XX:ParallelGCThreads=2"]
     jobs = []
     for p in range(nparts):
         f = d / f"MC_{sel}_{p}.cfg"
         f.write_text(CFG.format(sel=sel, part=p, nparts=nparts, maxops=maxops,
                                 dump="TRUE" if dump else "FALSE"))
-        jobs.append(dict(spec="MC_RenderArgs", cfg=str(f), workers=1 if dump else 2,
-                         timeout=timeout, coverage=coverage, deadlock=False))
+        jobs.append(dict(spec="MC_RenderArgs", cfg=str(f), workers=1 if dump else 2, jvm=jvm,
+                         timeout=timeout, coverage=coverage is True, deadlock=False))
+    if coverage == "sample":
+        f = d / "MC_cover.cfg"
+        f.write_text(CFG.format(sel="cover", part=0, nparts=1, maxops=maxops, dump="FALSE"))
+        jobs.append(dict(spec="MC_RenderArgs", cfg=str(f), workers=1, jvm=jvm, timeout=timeout,
+                         coverage=True, deadlock=False))
     try:
-        results = tlc.run_many(jobs, parallel=min(8, nparts))
+        results = tlc.run_many(jobs, parallel=8)
     finally:
         shutil.rmtree(d, ignore_errors=True)
     cov: dict[str, int] = defaultdict(int)
@@ -119,17 +129,20 @@ def run_mc(rep: Report, sel: str, maxops: int, nparts: int, dump: bool, coverage
             )
         for a, (_d, g) in res.coverage.items():
             cov[a] += g
+    parts = results[:nparts]
     rep.extra.setdefault("mc", []).append(
         {"label": label, "trees": sel, "max_ops": maxops, "parts": nparts,
-         "states": sum(r.distinct for r in results), "generated": sum(r.generated for r in results),
+         "states": sum(r.distinct for r in parts), "generated": sum(r.generated for r in parts),
          "wall_s": round(max(r.wall_s for r in results), 1)}
     )
     if coverage:
         vac = [a for a in ACTIONS if cov.get(a, 0) == 0]
         if vac:
-            raise tlc.MachineryError(f"vacuous actions in {label}: {vac}")
-        rep.extra.setdefault("action_coverage", {})[label] = {a: cov[a] for a in ACTIONS}
-    return results
+            raise tlc.MachineryError(f"vacuous actions in {label} (-coverage): {vac}")
+        rep.extra.setdefault("action_coverage", {})[
+            label + (" (-coverage on TreesCover)" if coverage == "sample" else "")
+        ] = {a: cov[a] for a in ACTIONS}
+    return parts
 
 
 def tagged_lines(stdout: str, tag: str):
@@ -576,44 +589,100 @@ def check_rules(rep: Report, stdout: str):
 
 
 # ---------------------------------------------------------------------------------------
-def replay_edges(rep: Report, results, label: str, only_tree=None, only_first=None):
-    n_edges = n_paths = same = diff = trees = 0
-    for res in results:
-        infos = {t["t"]: t for t in tagged_lines(res.stdout, "TREE")}
-        by_tree: dict[int, list] = defaultdict(list)
-        for e in tagged_lines(res.stdout, "EDGE"):
-            by_tree[e[0]].append(e)
-        judge: dict[int, dict] = defaultdict(dict)
-        for s in tagged_lines(res.stdout, "STATE"):
-            judge[s["t"]][hkey(s["h"])] = s["j"]
-        if not by_tree:
-            raise tlc.MachineryError(f"no EDGE lines in {label}")
+_STDOUTS: list[str] = []  # TLC outputs of the parts, inherited by the forked replay workers
+
+
+def _replay_part(args):
+    idx, label, only_tree, only_first, canary, seed = args
+    rep = Report(property_id="C16", tier="", seed=seed)
+    stdout = _STDOUTS[idx]
+    infos = {t["t"]: t for t in tagged_lines(stdout, "TREE")}
+    by_tree: dict[int, list] = defaultdict(list)
+    for e in tagged_lines(stdout, "EDGE"):
+        by_tree[e[0]].append(e)
+    judge: dict[int, dict] = defaultdict(dict)
+    for s in tagged_lines(stdout, "STATE"):
+        judge[s["t"]][hkey(s["h"])] = s["j"]
+    if not by_tree:
+        return {"error": f"no EDGE lines in part {idx} of {label}"}
+    out = {"edges": 0, "paths": 0, "same": 0, "diff": 0, "trees": 0, "canary": False,
+           "sample": None, "error": None}
+    try:
         for t, edges in sorted(by_tree.items()):
             info = infos[t]
             if only_tree and (info["par"], info["has"]) != (only_tree["par"], only_tree["has"]):
                 continue
             rp = Replayer(rep, info, edges, judge[t], label)
-            if not (only_tree or rep.extra.get("canary_edge")):
+            if canary and not out["canary"]:
                 canary_edge(rp, edges)
-                rep.extra["canary_edge"] = "a tampered edge (required value altered) is rejected"
+                out["canary"] = True
             rp.run(only_first)
-            trees += 1
-            n_edges += rp.n_edges
-            n_paths += rp.n_paths
-            same += rp.ident_same
-            diff += rp.ident_diff
+            out["trees"] += 1
+            out["edges"] += rp.n_edges
+            out["paths"] += rp.n_paths
+            out["same"] += rp.ident_same
+            out["diff"] += rp.ident_diff
+            if out["sample"] is None:
+                out["sample"] = {"tree": {"par": info["par"], "has": info["has"]}, "edges": edges[-2:]}
             if rp.n_edges != len(edges) and not rp.stop and not only_first and not rep.violations:
-                raise tlc.MachineryError(
-                    f"replayed {rp.n_edges} of {len(edges)} edges of tree {info} ({label})")
+                return {"error": f"replayed {rp.n_edges} of {len(edges)} edges of tree {info} ({label})"}
             if len(rep.violations) >= MAX_VIOLATIONS:
                 break
-    rep.traces_validated += n_paths
-    rep.extra.setdefault("replay", []).append(
-        {"label": label, "trees": trees, "edges": n_edges, "paths": n_paths,
-         "identity_as_modelled": same, "identity_differs": diff})
-    if len(rep.samples) < 2 and results:
-        es = list(tagged_lines(results[0].stdout[:400000], "EDGE"))[-3:]
-        rep.sample({"edges": es})
+    except tlc.MachineryError as e:
+        return {"error": str(e)}
+    acts: dict[str, int] = defaultdict(int)
+    for edges in by_tree.values():
+        for e in edges:
+            acts[e[4][0] + ("Rejected" if e[6] else "")] += 1
+    out["actions"] = dict(acts)
+    out["violations"] = [(v.signature, v.detail, v.scenario) for v in rep.violations]
+    out["distinct"] = rep.distinct
+    out["evaluations"] = rep.evaluations
+    return out
+
+
+def replay_edges(rep: Report, results, label: str, only_tree=None, only_first=None):
+    import multiprocessing as mp
+
+    global _STDOUTS
+    _STDOUTS = [r.stdout for r in results]
+    canary = not (only_tree or rep.extra.get("canary_edge"))
+    jobs = [(i, label, only_tree, only_first, canary and i == 0, rep.seed) for i in range(len(results))]
+    ctx = mp.get_context("fork")
+    with ctx.Pool(min(8, len(jobs))) as pool:
+        outs = pool.map(_replay_part, jobs, chunksize=1)
+    _STDOUTS = []
+    tot = {"label": label, "trees": 0, "edges": 0, "paths": 0, "identity_as_modelled": 0,
+           "identity_differs": 0}
+    acts: dict[str, int] = defaultdict(int)
+    for o in outs:
+        if o.get("error"):
+            raise tlc.MachineryError(o["error"])
+        for k, v in o["actions"].items():
+            acts[k] += v
+        tot["trees"] += o["trees"]
+        tot["edges"] += o["edges"]
+        tot["paths"] += o["paths"]
+        tot["identity_as_modelled"] += o["same"]
+        tot["identity_differs"] += o["diff"]
+        rep.evaluations += o["evaluations"]
+        rep.distinct |= o["distinct"]
+        for sig, detail, scenario in o["violations"]:
+            if len(rep.violations) < MAX_VIOLATIONS:
+                rep.violation(sig, detail, scenario)
+        if o["canary"]:
+            rep.extra["canary_edge"] = "a tampered edge (required value altered) is rejected"
+        if o["sample"] and len(rep.samples) < 2:
+            rep.sample(o["sample"])
+    if canary and not rep.extra.get("canary_edge"):
+        raise tlc.MachineryError("edge canary did not run")
+    if not (only_tree or only_first):
+        vac = [a for a in ACTIONS if not acts.get(a)]
+        if vac:
+            raise tlc.MachineryError(f"actions without a replayed edge in {label}: {vac}")
+        tot["edges_per_action"] = {a: acts[a] for a in ACTIONS}
+    rep.traces_validated += tot["paths"]
+    rep.extra.setdefault("replay", []).append(tot)
 
 
 def canary_edge(rp: Replayer, edges: list):
@@ -637,7 +706,17 @@ def canary_edge(rp: Replayer, edges: list):
     raise tlc.MachineryError("no level-1 namespace edge to tamper with")
 
 
+def _lap(rep: Report, name: str, t0: float) -> float:
+    import time
+
+    now = time.time()
+    rep.extra.setdefault("timing_s", {})[name] = round(now - t0, 1)
+    return now
+
+
 def main(rep: Report, replay: dict | None) -> None:
+    import time
+
     rep.assumptions += ASSUMPTIONS
     rep.rule = (
         "spec->code: every TLC edge of MC_RenderArgs (tier's class trees x histories of MaxOps "
@@ -659,7 +738,7 @@ def main(rep: Report, replay: dict | None) -> None:
             judge_traces(rep, [tr], validate(rep, [tr], "c16replay"))
         elif sc["kind"] == "dfs":
             sel, maxops = ("quick", 3) if "quick" in sc["label"] else ("thorough", 3)
-            res = run_mc(rep, sel, maxops, 8 if sel == "thorough" else 3, True, False, 900, sc["label"])
+            res = run_mc(rep, sel, maxops, 24 if sel == "thorough" else NQUICK, True, False, 900, sc["label"])
             replay_edges(rep, res, sc["label"], only_tree=sc["tree"], only_first=sc["first"])
         elif sc["kind"] in ("classrule", "instrule"):
             res = run_mc(rep, "quick", 1, 1, False, False, 300, "rules")
@@ -667,10 +746,13 @@ def main(rep: Report, replay: dict | None) -> None:
         return
 
     # ---- model checking + spec -> code ---------------------------------------------
+    t0 = time.time()
     if quick:
-        res = run_mc(rep, "quick", 3, 3, True, True, 400, "quick/3ops")
+        res = run_mc(rep, "quick", 3, NQUICK, True, "sample", 400, "quick/3ops")
+        t0 = _lap(rep, "tlc quick/3ops", t0)
         check_rules(rep, res[0].stdout)
         replay_edges(rep, res, "quick/3ops")
+        t0 = _lap(rep, "replay quick/3ops", t0)
         rep.exhaustive = True
         rep.extra["exhaustive_space"] = (
             "all histories of 3 operations (19 actions, <= 2 namespaces per call, 9 field "
@@ -678,12 +760,16 @@ def main(rep: Report, replay: dict | None) -> None:
     else:
         res = run_mc(rep, "quick", 1, 1, False, False, 300, "rules")
         check_rules(rep, res[0].stdout)
-        res = run_mc(rep, "thorough", 3, 8, True, True, 840, "thorough/3ops")
+        res = run_mc(rep, "thorough", 3, 24, True, True, 840, "thorough/3ops")
+        t0 = _lap(rep, "tlc thorough/3ops", t0)
         replay_edges(rep, res, "thorough/3ops")
+        t0 = _lap(rep, "replay thorough/3ops", t0)
         del res
         if len(rep.violations) < MAX_VIOLATIONS:
-            res4 = run_mc(rep, "quick", 4, 9, True, False, 840, "quick/4ops")
+            res4 = run_mc(rep, "quick", 4, NQUICK, True, False, 840, "quick/4ops")
+            t0 = _lap(rep, "tlc quick/4ops", t0)
             replay_edges(rep, res4, "quick/4ops")
+            t0 = _lap(rep, "replay quick/4ops", t0)
             del res4
         rep.exhaustive = True
         rep.extra["exhaustive_space"] = (
@@ -693,6 +779,7 @@ def main(rep: Report, replay: dict | None) -> None:
 
     # ---- code -> spec ----------------------------------------------------------------
     traces = gen_traces(rep, 240 if quick else 3000, 7 if quick else 10)
+    t0 = _lap(rep, "record traces", t0)
     # canary: a corrupted trace must be rejected
     bad = json.loads(json.dumps(next(t for t in traces if any(
         e["rid"] and e["heap"][e["rid"] - 1]["k"] == "ra" and any(e["heap"][e["rid"] - 1]["v"])
@@ -705,6 +792,7 @@ def main(rep: Report, replay: dict | None) -> None:
     verdicts = validate(rep, traces + [bad], "c16")
     if verdicts[-1]["verdict"] == "ok":
         raise tlc.MachineryError("corrupted trace was accepted by Trace_RenderArgs")
+    _lap(rep, "tlc traces", t0)
     rep.extra["canary_trace"] = f"corrupted trace rejected: {verdicts[-1]['verdict'][:60]}"
     judge_traces(rep, traces, verdicts[:-1])
 
